@@ -4,6 +4,7 @@
 // deciding power is (a) invariants after every motion, (b) ViModel.
 #include "common.h"
 #include "../models/vimodel.h"
+#include <set>
 
 namespace {
 
@@ -80,7 +81,7 @@ struct C07 : Check {
 	std::vector<std::string> text0;
 	bool synced = false;
 
-	void begin(RunCtx &) override { M = vim::Model(); text0.clear(); synced = false; xalt = -1; prev_top = 0; }
+	void begin(RunCtx &) override { M = vim::Model(); text0.clear(); synced = false; xalts.clear(); prev_top = 0; }
 
 	void quiescent(RunCtx &c, int after) override
 	{
@@ -132,8 +133,8 @@ struct C07 : Check {
 			// the column j/k aim for is kept by j/k themselves and by a motion that did not move
 			bool movedh = row != M.c.row || off != M.c.off;
 			M.c.row = row; M.c.off = off;
-			if (base != "j" && base != "k" && movedh) { M.xcol = M.col_of(row, off); xalt = -1; }
-			else if (base != "j" && base != "k" && xalt < 0 && M.col_of(row, off) != M.xcol) xalt = M.col_of(row, off);
+			if (base != "j" && base != "k" && movedh) { M.xcol = M.col_of(row, off); xalts.clear(); }
+			else if (base != "j" && base != "k" && M.col_of(row, off) != M.xcol) xalts.insert(M.col_of(row, off));
 			return;
 		}
 		// H M L are defined relative to the window as it was when the key was typed
@@ -144,17 +145,19 @@ struct C07 : Check {
 		if (!ok) M.c = before;
 		// The column j/k aim for after a motion that FAILED is not defined by the reference (kept, or
 		// reset to the cursor's): both are carried until a j/k shows which one the editor uses.
-		if ((base == "j" || base == "k") && ok && xalt >= 0 && (row != M.c.row || off != M.c.off)) {
-			vim::Model A = M; A.c = before; A.xcol = xalt;
-			if (A.motion(m, (int) k, cnt > 0) && A.c.row == row && A.c.off == off) { M = A; c.count("sticky_column_after_failure_resolved"); }
-			xalt = -1;
+		if ((base == "j" || base == "k") && ok && !xalts.empty() && (row != M.c.row || off != M.c.off)) {
+			for (int xa : xalts) {
+				vim::Model A = M; A.c = before; A.xcol = xa;
+				if (A.motion(m, (int) k, cnt > 0) && A.c.row == row && A.c.off == off) { M = A; c.count("sticky_column_after_failure_resolved"); break; }
+			}
+			xalts.clear();
 		}
 		if (!ok && base != "j" && base != "k") {
 			int here = M.col_of(M.c.row, M.c.off);
 			M.xcol = xcol_before;
-			if (xalt < 0 && here != M.xcol) xalt = here;
+			if (here != M.xcol) xalts.insert(here);
 		} else if (ok && base != "j" && base != "k")
-			xalt = -1;
+			xalts.clear();
 		c.count(ok ? "motions_compared" : "failing_motions_compared");
 		if (row != M.c.row || off != M.c.off) {
 			std::string cls = "C07/motion/" + (base == "\n" ? std::string("nl") : base == " " ? std::string("sp") : base) + (ok ? "/wrong-position" : "/moved-though-failing");
@@ -164,7 +167,8 @@ struct C07 : Check {
 		Fnv h; h.num((unsigned long long) row * 4096 + (unsigned long long) off);
 		c.state(h.h);
 	}
-	int prev_top = 0, xalt = -1;
+	int prev_top = 0;
+	std::set<int> xalts;	// other columns j/k may aim for (after motions that failed)
 };
 
 CheckReg reg(new C07);
